@@ -359,25 +359,64 @@ def subscribed_to_all(c, required):
     return z3.ForAll([j], z3.Implies(z3.And(0 <= j, j < L(required)), c.h('$subscribed')[c.a.self][required[j]]))
 
 
-reg.add(Proc(A + 'AdapterLookupBase._subscribe', [('self', OBJ)], varargs='required', trusted=True,
+# AdapterLookupBase._subscribe, verified from its body.  The lookup object remembers (by weak reference, in its own mapping
+# _required) which required specifications it already listens to and subscribes to a specification only the first time; that is
+# correct only under the representation invariant "a remembered specification is a subscribed one" (RefsInv), which the method
+# needs, keeps, and which AdapterLookupBase.changed re-establishes by emptying the mapping after unsubscribing.
+WR = z3.Function('weakref_of_specification', Obj, Obj)
+_wa, _wb = z3.Consts('wr_a wr_b', Obj)
+reg.axiom('weak-references-identify-their-referent', z3.ForAll([_wa, _wb], z3.Implies(WR(_wa) == WR(_wb), _wa == _wb), patterns=[z3.MultiPattern(WR(_wa), WR(_wb))]))
+reg.axiom('a-weak-reference-is-an-object', z3.ForAll([_wa], z3.And(WR(_wa) != NONE, WR(_wa) != ABSENT), patterns=[WR(_wa)]))
+reg.add(Proc(A + 'virtual.weakref', [('self', OBJ)], result=OBJ, trusted=True, pure_fn=lambda c: WR(c.a.self),
+             note='Specification.weakref(): a weak reference object that identifies the specification (equal references, same referent)'))
+reg.add(Proc(A + 'virtual.specification_subscribe', [('self', OBJ), ('dependent', OBJ)], modifies=['$subscribed'],
+             ensures=lambda c: [c.h('$subscribed') == z3.Store(c.h0('$subscribed'), c.a.dependent,
+                                                                z3.Store(c.h0('$subscribed')[c.a.dependent], c.a.self, True))],
+             note='Specification.subscribe(dependent) (verified under C02: the dependent is recorded with multiplicity): '
+                  'ghost relation "dependent listens to specification"'))
+
+
+def refs_inv(c, now=True):
+    h = c.h if now else c.h0
+    r = z3.Const('ri_r', Obj)
+    refs = h('$dict')[h('_required')[c.a.self]]
+    return ForAllP([r], z3.Implies(refs[WR(r)] != ABSENT, h('$subscribed')[c.a.self][r]), [refs[WR(r)]])
+
+
+def _sub_frame(c):
+    o, l, sp = z3.Consts('su_o su_l su_s', Obj)
+    return [('only-the-own-bookkeeping-mapping-is-written', ForAllP([o], z3.Implies(
+        o != c.h0('_required')[c.a.self], c.h('$dict')[o] == c.h0('$dict')[o]), [c.h('$dict')[o]])),
+            ('subscriptions-only-grow', ForAllP([l, sp], z3.Implies(c.h0('$subscribed')[l][sp], c.h('$subscribed')[l][sp]), [c.h('$subscribed')[l][sp]])),
+            ('remembered-specifications-are-subscribed-ones', refs_inv(c))]
+
+
+def _sub_loop(c):
+    j = z3.Int('sl_j')
+    req = c.a.required
+    return [('the-first-i-are-subscribed', ForAllP([j], z3.Implies(z3.And(0 <= j, j < c.i), c.h('$subscribed')[c.a.self][req[j]]), [req[j]])),
+            ('bookkeeping-mapping-unchanged-as-object', c.h('_required') == c.h0('_required'))] + _sub_frame(c)
+
+
+reg.add(Proc(A + 'AdapterLookupBase._subscribe', [('self', OBJ)], varargs='required', source='adapter.py:AdapterLookupBase._subscribe',
+             calls={'r.weakref': A + 'virtual.weakref', 'r.subscribe': A + 'virtual.specification_subscribe'},
+             locals={'_refs': DICT},
              modifies=['$dict', '$subscribed'],
-             ensures=lambda c: [z3.ForAll([z3.Const('su_o', Obj)], z3.Implies(
-                 z3.Const('su_o', Obj) != c.h0('_required')[c.a.self],
-                 c.h('$dict')[z3.Const('su_o', Obj)] == c.h0('$dict')[z3.Const('su_o', Obj)])),
-                 subscribed_to_all(c, c.a.required),
-                 z3.ForAll([z3.Const('su_l', Obj), z3.Const('su_s', Obj)], z3.Implies(
-                     c.h0('$subscribed')[z3.Const('su_l', Obj)][z3.Const('su_s', Obj)],
-                     c.h('$subscribed')[z3.Const('su_l', Obj)][z3.Const('su_s', Obj)]))],
-             note='records weak references to the required specifications and subscribes to them (contract refined in C05); '
-                  'touches only the lookup object\'s own _required mapping'))
+             requires=lambda c: [('remembered-specifications-are-subscribed-ones', refs_inv(c)),
+                                 ('the-bookkeeping-mapping-exists', z3.And(c.h('_required')[c.a.self] != NONE, is_dict(c.h('_required')[c.a.self])))],
+             ensures=lambda c: [('listens-to-every-required-specification', subscribed_to_all(c, c.a.required))] + _sub_frame(c),
+             loops={'L0': Loop(_sub_loop)}))
 
 reg.add(Proc(
     A + 'AdapterLookupBase._uncached_lookup', [('self', OBJ), ('required', SEQO), ('provided', OBJ), ('name', OBJ)],
     source='adapter.py:AdapterLookupBase._uncached_lookup', result=OBJ, locals={'$containers': True},
     calls={'_lookup': A + '_lookup', 'self._subscribe': A + 'AdapterLookupBase._subscribe'},
     requires=lambda c: [('chain-well-formed', chain_ok(c)),
-                        ('own-bookkeeping-is-not-a-tree-node', z3.Not(in_tree(c.h('_required')[c.a.self])))],
+                        ('own-bookkeeping-is-not-a-tree-node', z3.Not(in_tree(c.h('_required')[c.a.self]))),
+                        ('remembered-specifications-are-subscribed-ones', refs_inv(c)),
+                        ('the-bookkeeping-mapping-exists', z3.And(c.h('_required')[c.a.self] != NONE, is_dict(c.h('_required')[c.a.self])))],
     modifies=['$dict', '$subscribed'],
-    ensures=lambda c: _ul_post(c) + [('listens-to-every-required-specification', subscribed_to_all(c, c.a.required))],
+    ensures=lambda c: _ul_post(c) + [('listens-to-every-required-specification', subscribed_to_all(c, c.a.required)),
+                                     ('remembered-specifications-are-subscribed-ones', refs_inv(c))],
     loops={'L0': Loop(_ul_loop)},
 ))
